@@ -27,6 +27,7 @@ each a necessary condition:
 """
 from .. import protocols
 from ..harness import arr, index, integer, scalar
+from .. import tq
 from ..interp import State
 from ..terms import T, Term, V, vconst
 
@@ -125,9 +126,9 @@ def check(ctx):
             # point consistency of the call
             for a in calls["qs"]:
                 cur, nearest, wts, dmat, cutv = a
-                okc = repr(nearest.term).endswith(f"[{cur.term!r}]") and "argmin" in repr(nearest.term) and repr(cutv.term).endswith(f"[{cur.term!r}]") and wts.term == w.term
+                okc = nearest.term.op == "getitem" and nearest.term.args[1] == cur.term and nearest.term.args[0].op == "argmin" and cutv.term.op == "getitem" and cutv.term.args[1] == cur.term and wts.term == w.term
                 ctx.ob("R-POINTCONSISTENT", f"_qs_next is called with the nearest neighbour and cut-off of the current point and the sample weights [{cfg}]", okc, f"current={cur.term!r}; nearest={repr(nearest.term)[:80]}; cutoff={repr(cutv.term)[:80]}", site, cfg)
-                okn = "axis', 1" in repr(nearest.term) or "axis=1" in repr(nearest.term)
+                okn = nearest.term.op == "getitem" and any(isinstance(a_, tuple) and a_[0] == "axis" and a_[1] == T("const", __import__("fractions").Fraction(1)) for a_ in nearest.term.args[0].args)
                 ctx.ob("R-POINTCONSISTENT", f"nearest neighbours are the row-wise argmin of the distance matrix [{cfg}]", okn, repr(nearest.term)[:120], site, cfg, nontrivial=False)
             for a in calls["gs"]:
                 cur, wts, dmat, g = a
